@@ -11,6 +11,7 @@
 From Coq Require Import QArith Qround Qabs List Bool Arith ZArith Lia.
 Import ListNotations.
 From PV Require Import Lib.WLS BSpline.Eval BSpline.Fit BSpline.Iter.
+From PV Require Import Generated.Combine1fiber.   (* only c1f_bad: the bad-region test as the source has it *)
 Open Scope Q_scope.
 
 Definition EPS : Q := 1 # 8388608.      (* np.finfo(np.float32).eps = 2^-23 *)
@@ -137,7 +138,7 @@ Definition smooth3 (v : list Q) : list Q :=
 
 Definition grow (v : list Q) : list Q :=
   let n := length v in
-  let bad := map (fun f => Qltb (Qabs f) EPS) (smooth3 v) in
+  let bad := map c1f_bad (smooth3 v) in       (* source: np.absolute(foo) < EPS  (or foo == 0.0 once repaired) *)
   let ibad := filter (fun i => nthB bad i) (seq 0 n) in
   let lower := map (fun i => (i - 2)%nat) ibad in
   let upper := map (fun i => Nat.min (i + 2) (n - 1)) ibad in
